@@ -21,6 +21,9 @@ def mesh_digest(mesh) -> str:
         g = mesh.dict_groupElem[et]
         tags = g._dict_nodes_tags
         parts.append([str(et), g.connect, g.coord, g.nodes, {k: np.sort(np.asarray(v)) for k, v in tags.items()}])
+    # the global element numbering (element-wise results are returned in that order): main-dimension groups in the
+    # order the mesh enumerates them
+    parts.append([str(g.elemType) for g in mesh.Get_list_groupElem()])
     return digest_of(parts)
 
 
@@ -60,8 +63,15 @@ FIELD_KEYS = {
     "WeakForms": [("u", "weakForm", 0), ("v", "weakForm", 1), ("a", "weakForm", 2)],
 }
 
+def _result(sim, name, **kw):
+    """'Svm@e' = the element-wise field (one value per element: its order is the element numbering of the mesh)."""
+    if name.endswith("@e"):
+        return sim.Result(name[:-2], nodeValues=False, **kw)
+    return sim.Result(name, **kw)
+
+
 RESULTS_AT_SAVE = {
-    "Elastic": ["Svm", "ux", "Wdef"],
+    "Elastic": ["Svm", "ux", "Wdef", "Svm@e"],
     "Thermal": ["thermal"],
     "PhaseField": ["damage", "Svm", "ux"],
     "InElastic": ["Svm", "ux"],
@@ -101,6 +111,9 @@ class HistWorld(World):
             cands = [n for n in meshlib.names(dim=2) if lib[n].Nn <= 30 and lib[n].main[0][0] in ("TRI3", "QUAD4", "TRI6")]
         else:
             cands = [n for n in meshlib.names(dim=dim) if lib[n].Nn <= maxNn]
+        if st in ("Elastic", "Thermal") and dim == 2:
+            # meshes with two main-dimension groups (TRI3 + QUAD4): the order of the groups fixes the element numbering
+            cands = cands + ["mixed_a", "mixed_b"]
         n_mesh = 1 if st == "WeakForms" else int(rng.integers(1, 4))
         meshes = [cands[int(rng.integers(len(cands)))] for _ in range(n_mesh)]
         kinds = simlib.SIM_MODEL[st]
@@ -224,7 +237,7 @@ class HistWorld(World):
         for name in RESULTS_AT_SAVE[self.type]:
             try:
                 with self.ctx.sut():
-                    snap["results"][name] = copy.deepcopy(sim.Result(name))
+                    snap["results"][name] = copy.deepcopy(_result(sim, name))
             except SutError as e:
                 raise Violation("result-raises-after-save", f"Result('{name}') right after Save_Iter raised {e}", e.site)
         return snap
@@ -607,7 +620,7 @@ class HistWorld(World):
         sim = self.sim
         try:
             with self.ctx.sut():
-                self._tmp["got"] = sim.Result(name, iter=i)
+                self._tmp["got"] = _result(sim, name, iter=i)
         except SutError as e:
             raise Violation("result-iter-raises", f"Result('{name}', iter={i}) raised {e}", e.site)
 
